@@ -2725,7 +2725,7 @@ class Mailbox:
         Returns the list of `FETCH *` mssages generated by this store.
         """
 
-        if r"\Recent" in flags:
+        if any(x.lower() == r"\recent" for x in flags):
             raise No(r"You can not add or remove the '\Recent' flag")
 
         if action not in StoreAction:
